@@ -2,7 +2,7 @@
 (* C15: write -> read through the library's OBJ / PLY / STL encoders and decoders (and through the command-line tools).
    Value ids were assigned by the driver with the format's tolerance; TLC checks the structure (Geometry!Equivalent style bag
    equality of triangles of per-corner value tuples, or of points) and that the worst residual stays inside the format's bound:
-   OBJ: |a-b| <= 0.5e-6 (+ 2 ulp32, already subtracted by the driver) -> excess_e9 <= 500;  PLY / STL: bit exact -> 0.        *)
+   OBJ: |a-b| <= 0.5e-6 (+ 1 ulp32, already subtracted by the driver) -> excess_e9 <= 500;  PLY / STL: bit exact -> 0.        *)
 EXTENDS TraceBase, Geometry
 SameTriBag(A, B) == SubBagTri(A, Faces(A), B, Faces(B)) /\ SubBagTri(B, Faces(B), A, Faces(A))
 SamePtSet(A, B) == {PointTuple(A, p) : p \in 0..(A.np - 1)} = {PointTuple(B, p) : p \in 0..(B.np - 1)}
